@@ -230,13 +230,9 @@ func oneC15(cfg c15Cfg) (viol string, miss string) {
 		}
 		effective = nil
 	}
-	afterCtor := runtime.NumGoroutine()
-	if cfg.Interval <= 0 && afterCtor > base {
-		// poll: something unrelated may be finishing
-		time.Sleep(5 * time.Millisecond)
-		if n := runtime.NumGoroutine(); n > base {
-			return fmt.Sprintf("constructing %d caches with cleanup interval %dms raised the goroutine count from %d to %d: a janitor was started although none is configured", cfg.Caches, cfg.Interval, base, n), ""
-		}
+	if cfg.Swap != 0 && cfg.Interval > 0 {
+		// a janitor pass already under way when the callback was replaced may still deliver to the old one: let it finish
+		time.Sleep(time.Duration(2*cfg.Interval+1) * time.Millisecond)
 	}
 	// a sentinel stored in the first cache shows whether contents are released later
 	var released int32
